@@ -357,6 +357,25 @@ func c10Emission(c *Ctx) {
 			s := newSym(L, map[string]bool{})
 			s.maxD = 0
 			t := strings.Join(s.eval(st.Val), "|")
+			if !strings.HasPrefix(t, ch.want) {
+				// the value handed back by a private helper (injectorNameOf): what the helper returns on its success path; its
+				// failing returns yield the empty string, which the caller discards together with the error
+				s2 := newSym(L, map[string]bool{})
+				s2.maxD = 2
+				okAll, some := true, false
+				for _, t2 := range s2.eval(st.Val) {
+					switch {
+					case strings.HasPrefix(t2, ch.want):
+						some = true
+					case t2 == `""`:
+					default:
+						okAll = false
+					}
+				}
+				if okAll && some {
+					t = ch.want + "...) [through a helper]"
+				}
+			}
 			ts = append(ts, t)
 			if !strings.HasPrefix(t, ch.want) {
 				ok = false
